@@ -17,6 +17,7 @@ package tokenV2
 //@     && did(call credentialIsSecure #1) && arg(call credentialIsSecure #1, 0) == credential && isNilIface(ret(call credentialIsSecure #1))
 //@     && did(call jwt.ParseString #1) && isNilIface(ret(call jwt.ParseString #1).1) && token == ret(call jwt.ParseString #1).0
 //@     && did(call jwt.Validate #1) && isNilIface(ret(call jwt.Validate #1))
+//@     && did(call algorithmFitsKey #1) && isNilIface(ret(call algorithmFitsKey #1)) && arg(call algorithmFitsKey #1, 0) == credential && same(arg(call algorithmFitsKey #1, 1), authorizedKey)
 //@     && did(call bestPracticesCheck #1) && arg(call bestPracticesCheck #1, 0) == token && isNilIface(ret(call bestPracticesCheck #1))
 //@     && authorizedKey.comment == token.Issuer()
 //@     && arg(0) == authorizedKey && arg(1) == context && arg(2) == token && arg(3) == next
@@ -24,7 +25,7 @@ package tokenV2
 //@   ensures [every-outcome-is-next-granted-or-401]
 //@        did(call next #1) || did(call accessGranted #1)
 //@     || did(call unauthorizedError #1) || did(call unauthorizedError #2) || did(call unauthorizedError #3)
-//@     || did(call unauthorizedError #4) || did(call unauthorizedError #5) || did(call unauthorizedError #6)
+//@     || did(call unauthorizedError #4) || did(call unauthorizedError #5) || did(call unauthorizedError #6) || did(call unauthorizedError #7)
 
 //@ func unauthorizedError
 //@   prop C04
@@ -89,3 +90,13 @@ package tokenV2
 //@   call append #1 requires [each-entry-has-the-key-set-of-its-own-line] len(arg(1)) == 1 && arg(1)[0].jwkSet == ret(call buildKeySet #1).0 && isNilIface(ret(call buildKeySet #1).1)
 //@        && arg(call buildKeySet #1, 0) == publicKey && arg(1)[0].key == publicKey && arg(1)[0].comment == comment && comment != ""
 //@        && publicKey == ret(call ssh.ParseAuthorizedKey #1).0
+
+// ---- C17: the algorithm named by the token fits the authorized key that verified it (the JOSE library infers candidate
+// algorithms from the key TYPE only: an ES256 token verifies with a P-384 key) ----
+//@ func algorithmFitsKey
+//@   prop C17
+//@   assume-benign
+//@   ensures [the-tokens-algorithm-fits-this-key] isNilIface(result) ==> isNilIface(ret(call crypto.JWTKidAlg #1).2) && arg(call crypto.JWTKidAlg #1, 0) == credential
+//@        && isNilIface(ret(call cryptoPublicKey #1).1) && arg(call cryptoPublicKey #1, 0) == authKey.key
+//@        && did(call crypto.CheckAlgorithmFitsKey #1) && isNilIface(ret(call crypto.CheckAlgorithmFitsKey #1))
+//@        && arg(call crypto.CheckAlgorithmFitsKey #1, 0) == ret(call crypto.JWTKidAlg #1).1 && arg(call crypto.CheckAlgorithmFitsKey #1, 1) == ret(call cryptoPublicKey #1).0
